@@ -94,32 +94,43 @@ def check(facts):
             elif cal == "index_mut":
                 n_store += 1
                 idx = t["args"][1]
-                ok = False
-                if idx["k"] in ("copy", "move"):
-                    # follow the index value back to a read of `... as CaptureGroup.id`
-                    l = idx["pl"]["l"]
+
+                def id_flow(body_, op_):
+                    """(flows from a CaptureGroup's id?, integer parameters of body_ the value flows from)"""
+                    got, params_ = False, set()
+                    if op_["k"] not in ("copy", "move"):
+                        return got, params_
                     seen = set()
-                    work = [l]
-                    while work and not ok:
+                    work = [op_["pl"]["l"]]
+                    while work and not got:
                         x = work.pop()
                         if x in seen:
                             continue
                         seen.add(x)
-                        for d in b.defs().get(x, []):
+                        if 1 <= x <= body_.argc:
+                            params_.add(x)
+                        for d in body_.defs().get(x, []):
                             if d[2] != "assign":
                                 continue
                             rv = d[3]["rv"]
-                            ops = [rv.get("op"), rv.get("a"), rv.get("b")]
-                            for o in ops:
+                            for o in (rv.get("op"), rv.get("a"), rv.get("b")):
                                 if isinstance(o, dict) and o.get("k") in ("copy", "move"):
                                     pl = o["pl"]
                                     fields = core.proj_fields(pl)
-                                    rt, pr = b.root_of(pl["l"])
+                                    rt, pr = body_.root_of(pl["l"])
                                     allf = [y.get("f") for y in pr if isinstance(y, dict) and "f" in y] + fields
                                     downs = [y.get("as") for y in pr + pl["p"] if isinstance(y, dict) and "as" in y]
                                     if "id" in allf and "CaptureGroup" in downs:
-                                        ok = True
+                                        got = True
                                     work.append(pl["l"])
+                    return got, params_
+                ok, via = id_flow(b, idx)
+                if not ok and via:
+                    # the store lives in a helper: every call site in emit.rs passes a value flowing from the group's id
+                    sites = [(cn, tt) for cn in facts.body_names() if cn.startswith("emit::")
+                             for _, tt in facts.body(cn).iter_calls() if (tt.get("callee") or "") == fn]
+                    ok = bool(sites) and all(any(len(tt["args"]) >= p_ and id_flow(facts.body(cn), tt["args"][p_ - 1])[0] for p_ in via)
+                                             for cn, tt in sites)
                 if ok:
                     r.ok(key, "indexed by a value flowing from CaptureGroup.id")
                     r.sample({"key": key, "line": t["line"]})
